@@ -27,6 +27,7 @@ type Op struct {
 	Quiet  bool     `json:"quiet,omitempty"` // binary setq/addq/...
 	Raw    []byte   `json:"raw,omitempty"`
 	SameOpq bool    `json:"same_opq,omitempty"` // handler-level get: every key carries Opaque (as the text parser produces)
+	E       bool    `json:"e,omitempty"`        // binary get sent as GETE / GETEQ (rend's extension: the hit carries the expiry too)
 	KeyB   []byte   `json:"keyb,omitempty"`  // binary-safe key (overrides Key)
 	KeysB  [][]byte `json:"keysb,omitempty"` // binary-safe keys (override Keys)
 }
@@ -54,6 +55,9 @@ func (o Op) KS() [][]byte {
 func (o Op) String() string {
 	switch o.Kind {
 	case "get":
+		if o.E {
+			return fmt.Sprintf("gete %v quiets=%v noop=%v opq=%d", o.Keys, o.Quiets, o.Noop, o.Opaque)
+		}
 		return fmt.Sprintf("get %v quiets=%v noop=%v opq=%d", o.Keys, o.Quiets, o.Noop, o.Opaque)
 	case "set", "add", "replace":
 		return fmt.Sprintf("%s %q len=%d flags=%d ttl=%d opq=%d q=%v", o.Kind, o.Key, len(o.Data), o.Flags, o.TTL, o.Opaque, o.Quiet)
@@ -123,12 +127,12 @@ func EncodeBinary(o Op) []byte {
 		ks := o.KS()
 		for i, k := range ks {
 			oc := uint8(0x00)
-			if o.Kind == "gete" {
+			if o.Kind == "gete" || o.E {
 				oc = 0x40
 			}
 			if i < len(o.Quiets) && o.Quiets[i] {
 				oc = 0x09
-				if o.Kind == "gete" {
+				if o.Kind == "gete" || o.E {
 					oc = 0x41
 				}
 			}
